@@ -538,21 +538,28 @@ class ClockScheduler():
     def reset(self):
         self.queue.clear()
 
+    def retime(self, clock):
+        # A tempo change moves the pending tasks of that clock in seconds.
+        for _, clock_task in list(self.queue):
+            if clock_task.clock is clock:
+                self.queue.add(clock.beats2secs(clock_task.beats), clock_task)
+
 
 class ClockTask():
     def __init__(self, beats, clock, task, scheduler):
         self.clock = clock
         self.task = task
         self.scheduler = scheduler
+        self.beats = beats
         scheduler.add(clock.beats2secs(beats), self)
 
     def _wakeup(self, time):
         try:
             _libsc3.main._update_logical_time(time)
-            beats = self.clock.secs2beats(time)
             delta = self.task.__awake__(self.clock)
             if isinstance(delta, (int, float)) and not isinstance(delta, bool):
-                self.scheduler.add(self.clock.beats2secs(beats + delta), self)
+                self.beats = self.beats + delta
+                self.scheduler.add(self.clock.beats2secs(self.beats), self)
         except stm.StopStream:
             pass
         except Exception:
@@ -958,7 +965,7 @@ class TempoClock(Clock, metaclass=MetaTempoClock):
         # en tempo_
         mdl.NotificationCenter.notify(self, 'tempo')
         if self.mode == _libsc3.main.NRT_MODE:
-            return
+            _libsc3.main._clock_scheduler.retime(self)
         else:
             with self._sched_cond:
                 self._sched_cond.notify()  # NOTE: is notify_one in C++.
@@ -987,7 +994,7 @@ class TempoClock(Clock, metaclass=MetaTempoClock):
         # etempo_
         mdl.NotificationCenter.notify(self, 'tempo')
         if self.mode == _libsc3.main.NRT_MODE:
-            return
+            _libsc3.main._clock_scheduler.retime(self)
         else:
             with self._sched_cond:
                 self._sched_cond.notify()  # NOTE: is notify_one in C++.
@@ -1045,7 +1052,7 @@ class TempoClock(Clock, metaclass=MetaTempoClock):
         self._base_beats = value
         self._beat_dur = 1.0 / self._tempo
         if self.mode == _libsc3.main.NRT_MODE:
-            return
+            _libsc3.main._clock_scheduler.retime(self)
         else:
             with self._sched_cond:
                 self._sched_cond.notify()  # NOTE: is notify_one in C++
